@@ -74,6 +74,12 @@ def py_cell(c, nans):
         return nans[v]
     if t == 's': return v
     if t == 'd': return us2dt(v)
+    if t == 'inf': return (NP.float64 if nans.get('np') else float)('inf') * v
+    if t == 'l': return list(v)
+    if t == 't': return tuple(v)
+    if t == 'ts':
+        import pandas as pd
+        return pd.Timestamp(us2dt(v[0])) + pd.Timedelta(v[1], 'ns')          # a pandas Timestamp with a nanosecond part
     raise ValueError(c)
 
 def coq_cell(c):
@@ -84,7 +90,10 @@ def coq_cell(c):
     if t == 'x': return '(CNum true (%d))' % scaled(float.fromhex(v))
     if t == 'nan': return '(CNaN %d%%N)' % v
     if t == 's': return '(CStr [%s])' % '; '.join(str(ord(ch)) for ch in v)
-    if t == 'd': return '(CDate (%d))' % v
+    if t == 'd': return '(CDate (%d))' % (v * 1000)                 # date-times travel in nanoseconds
+    if t == 'ts': return '(CDate (%d))' % (v[0] * 1000 + v[1])
+    if t == 'inf': return '(CInf %s)' % ('true' if v < 0 else 'false')
+    if t in ('l', 't'): return '(CList %s [%s])' % ('true' if t == 't' else 'false', '; '.join('(%d)' % e for e in v))
     raise ValueError(c)
 
 def coq_table(t):
@@ -136,14 +145,18 @@ def coq_case(case):
 # ------------------------------------------------------------------ canonical observation
 def enc(v, tagged):
     if v is None: return 'None'
+    if isinstance(v, list): return ['list', [int(e) for e in v]]
     if isinstance(v, tuple):
+        if len(v) != 2: return ['tuple', [int(e) for e in v]]      # a tuple-valued cell (generated with length != 2); pairs come from mode=None
         return ['t'] + [enc(e, tagged) for e in v]
     if isinstance(v, bool): raise TypeError('bool cell')
     if isinstance(v, float) and v != v: return 'NaN'
+    if isinstance(v, float) and v in (float('inf'), float('-inf')): return 'inf' if v > 0 else '-inf'
     if isinstance(v, int): return ['i' if tagged else 'n', int(v) * SCALE]
     if isinstance(v, float): return ['f' if tagged else 'n', scaled(v)]
     if isinstance(v, str): return ['s', [ord(ch) for ch in v]]
-    if isinstance(v, datetime.datetime): return ['d', dt2us(v)]
+    if hasattr(v, 'nanosecond') and hasattr(v, 'to_pydatetime'): return ['d', dt2us(v.to_pydatetime()) * 1000 + v.nanosecond]
+    if isinstance(v, datetime.datetime): return ['d', dt2us(v) * 1000]
     raise TypeError('cell %r' % (v,))
 
 def jcmp(a, b):
@@ -171,6 +184,7 @@ def cell_eq(a, b):
     if a is None or b is None: return a is None and b is None
     if is_num(a) and is_num(b):
         if a != a or b != b: return a != a and b != b
+        if abs(a) == float('inf') or abs(b) == float('inf'): return a == b
         return Fraction(a) == Fraction(b)           # exact, also for numpy floats (np.float64(2**53) == 2**53+1 is True in numpy)
     if is_num(a) or is_num(b): return False
     if type(a) is not type(b): return False
@@ -179,9 +193,11 @@ def key_eq(k1, k2): return len(k1) == len(k2) and all(cell_eq(a, b) for a, b in 
 
 def canon(v, exact):
     if v is None: return ('N',)
+    if isinstance(v, list): return ('l',) + tuple(v)
     if isinstance(v, tuple): return ('t',) + tuple(canon(e, exact) for e in v)
     if is_num(v):
         if v != v: return ('nan',)
+        if abs(v) == float('inf'): return ('inf', v > 0, type(v).__name__ if exact else '')
         return ('n', Fraction(v), type(v).__name__ if exact else '')      # exact: 2**53+1 != float(2**53)
     if isinstance(v, str): return ('s', v)
     return ('d', v)
@@ -430,9 +446,13 @@ POOLS = {
     'none': [None, None, ['i', 1], ['f', 2], ['s', 'a']],
     'big': [['i', 2**53], ['i', 2**53 + 1], ['i', 2**53 + 2], ['i', -(2**53) - 1], ['f', 2 * 2**53], ['f', 2 * (2**53 + 2)], ['i', -(2**53)]],
     'bigmixed': [['i', 2**53], ['i', 2**53 + 1], ['f', 2 * 2**53], ['i', -(2**53) - 1], ['f', -2 * 2**53], None, ['s', 'a'], ['i', 1]],
+    'inf': [['inf', 1], ['inf', -1], ['inf', 1], ['nan', 1], ['nan', 2], ['i', 0], ['f', 3], ['i', 2**53], ['i', -5]],
+    'infmixed': [['inf', 1], ['inf', -1], ['nan', 1], None, ['i', 1], ['s', 'a'], ['d', D1], ['x', (1e15 + 0.5).hex()]],
+    'ts': [['ts', [D1, 1]], ['ts', [D1, 2]], ['ts', [D1, 999]], ['ts', [D1 + 1, 0]], ['ts', [D1, 0]], None, ['ts', [D2, 500]]],
     'nan': [['nan', 1], ['nan', 2], ['nan', 3], ['i', 1], ['f', 2], ['i', 0]],
     'nanmixed': [['nan', 1], ['nan', 2], ['nan', 3], None, ['i', 1], ['f', 2], ['s', 'a'], ['d', D1]],
 }
+VALS_L = [['l', [7]], ['l', [1, 2]], ['l', []], ['t', [5]], ['t', [1, 2, 3]]]          # list / tuple valued cells: non-key columns only
 VALS = [None, ['i', 5], ['i', 6], ['f', 11], ['s', 'p'], ['s', 'q'], ['i', 7], ['d', D3], ['x', (0.1).hex()], ['s', '']]
 
 def rand_col(rng, pool, n):
@@ -446,14 +466,15 @@ def rand_case(rng, stream, kind=None):
     nx = rng.choice([0, 1, 2, 3, 3, 4, 5, 6]); ny = rng.choice([0, 1, 2, 3, 3, 4, 5, 6])
     nk = rng.choice([0, 1, 1, 1, 2, 2, 3])
     knames = ['a', 'b', 'c'][:nk]
-    pools = [rng.choice(['nan', 'nanmixed'] if (nan and k == 0) else ['int', 'num', 'num', 'str', 'date', 'mixed', 'mixed', 'none', 'big', 'bigmixed', 'frac']) for k in range(nk)]
+    pools = [rng.choice(['nan', 'nanmixed'] if (nan and k == 0) else ['int', 'num', 'num', 'str', 'date', 'mixed', 'mixed', 'none', 'big', 'bigmixed', 'frac', 'inf', 'infmixed', 'ts']) for k in range(nk)]
     x = [[k, rand_col(rng, p, nx)] for k, p in zip(knames, pools)]
     y = [[k, rand_col(rng, p, ny)] for k, p in zip(knames, pools)]
     # other columns: v is shared (mode matters), d only left, e only right
     for nm, side in (('v', 'xy'), ('d', 'x'), ('e', 'y'), ('w', 'xy')):
         if rng.random() < (0.5 if nm != 'w' else 0.15):
-            if 'x' in side: x.append([nm, [rng.choice(VALS) for _ in range(nx)]])
-            if 'y' in side: y.append([nm, [rng.choice(VALS) for _ in range(ny)]])
+            vals = VALS + VALS_L if nm in ('d', 'e') else VALS          # v / w may become key columns of a natural join
+            if 'x' in side: x.append([nm, [rng.choice(vals) for _ in range(nx)]])
+            if 'y' in side: y.append([nm, [rng.choice(vals) for _ in range(ny)]])
     kind = kind or rng.choice(['join', 'join', 'xor', 'both'])
     if kind == 'both':
         x.append(['id', [['i', 100 + i] for i in range(nx)]])
@@ -571,7 +592,7 @@ def large_case(rng):
     elif kind == 'xor': case['mode'] = rng.choice(['default', 'r'])
     return case
 
-FINITE = [['i', 0], ['i', 1], ['f', 2], ['i', 2], ['f', 3], ['i', 3], ['i', -1], ['f', 5]]
+FINITE = [['i', 0], ['i', 1], ['f', 2], ['i', 2], ['f', 3], ['i', 3], ['i', -1], ['f', 5], ['inf', 1], ['inf', -1]]
 def nan_numeric_case(rng):
     """all-numeric key column holding 1-2 NaN objects among several distinct finite values on BOTH sides, duplicates on both
     sides (many-to-many), NaN at any position: exercises the placement of NaN by sort() and the NaN ~ NaN match"""
@@ -618,6 +639,24 @@ def m2m_shared_case(rng):
     return {'kind': 'join', 'stream': 'm2m', 'x': x, 'y': y, 'via': 'method',
             'lcols': keys[0] if nk == 1 and rng.random() < 0.5 else ['list', keys], 'rcols': rng.choice([None, ['list', keys]]),
             'mode': rng.choice(['r', 'r', '1', '1', 'right', 'coalesce', 'coalesce', 'swap', 'swap', 'l', '0', 'none'])}
+
+def onerow_case(rng):
+    """results of exactly ONE row whose non-key cells are lists / tuples (a one-element column holding a list must stay a list)"""
+    k = rng.choice([['i', 1], ['s', 'a'], None, ['f', 3]]); other = rng.choice([['i', 9], ['s', 'zz']])
+    cell = lambda: rng.choice(VALS_L + VALS_L + VALS)
+    kind = rng.choice(['join', 'join', 'xor', 'cross'])
+    if kind == 'cross':
+        x = [['v', [cell()]], ['d', [cell()]]]; y = [['e', [cell()]], ['v', [cell()]]]
+        return {'kind': 'join', 'stream': 'onerow', 'x': x, 'y': y, 'lcols': ['list', []], 'rcols': None, 'mode': rng.choice(list(JMODES)), 'via': 'method'}
+    ny = rng.choice([1, 2, 3])
+    x = [['a', [k]], ['v', [cell()]], ['d', [cell()]]]
+    ykeys = [k] + [other] * (ny - 1) if kind == 'join' else [other] * ny
+    rng.shuffle(ykeys)
+    y = [['a', ykeys], ['v', [cell() for _ in ykeys]], ['e', [cell() for _ in ykeys]]]
+    rng.shuffle(x); rng.shuffle(y)
+    case = {'kind': kind, 'stream': 'onerow', 'x': x, 'y': y, 'lcols': ['col', 'a'], 'rcols': rng.choice([None, ['col', 'a']]), 'via': 'method'}
+    case['mode'] = rng.choice(list(JMODES)) if kind == 'join' else rng.choice(['default', 'l', '0'])
+    return case
 
 def self_case(rng, stream='self'):
     """the SAME table object on both sides (x.join(x, lcols, rcols), x.xor(x, ...), x * x, x / x): id / boss style columns drawn from one
@@ -703,7 +742,7 @@ def exhaustive_small():
 def gen_cases(rng, tier):
     q = tier == 'quick'
     cases = []
-    for _ in range(1650 if q else 30000):
+    for _ in range(1500 if q else 30000):
         cases.append(rand_case(rng, 'rand'))
     for _ in range(60 if q else 400):
         cases.append(rand_case(rng, 'nan'))
@@ -717,6 +756,8 @@ def gen_cases(rng, tier):
         cases.append(malformed(rng))
     for _ in range(250 if q else 2500):
         cases.append(self_case(rng))
+    for _ in range(150 if q else 1500):
+        cases.append(onerow_case(rng))
     ex = exhaustive_small()
     if q:
         ex = rng.sample(ex, 400)
